@@ -309,3 +309,45 @@ def total5(ctx) -> List[Ob]:
         else:
             out.append(ok("TOTAL-5", fn.qualname, key, where, f"tail: {'inserted' if t_ins else 'given'}, exit: {'inserted' if e_ins else 'given'}; returned names are those"))
     return out
+
+
+@rule("TOTAL-6", 5, "a work-list search is left only when the list is exhausted or with a positive answer: no break, no negative answer while items remain")
+def total6(ctx) -> List[Ob]:
+    out: List[Ob] = []
+    for fn in ctx.prog.functions:
+        cfg = ctx.cfg(fn)
+        for w in A.walk_no_nested(fn.node):
+            if not isinstance(w, ast.While):
+                continue
+            # work-list loops: `while work:` or `while True: if work: x = work.pop() else: return ...`
+            work = None
+            empty_branch: List[ast.stmt] = []
+            if isinstance(w.test, ast.Name):
+                work = w.test.id
+            elif isinstance(w.test, ast.Constant) and w.test.value is True:
+                for s in w.body:
+                    if isinstance(s, ast.If) and isinstance(s.test, ast.Name) and s.orelse:
+                        work = s.test.id
+                        empty_branch = s.orelse
+            if work is None:
+                continue
+            pops = [c for c in A.walk_no_nested(ast.Module(w.body, [])) if isinstance(c, ast.Call) and isinstance(c.func, ast.Attribute) and c.func.attr in ("pop", "popleft") and A.unparse(c.func.value) == work]
+            if not pops:
+                continue
+            key = f"work-list {work} in " + A.alpha_key(w.test)
+            where = ctx.where(fn, w)
+            probs = []
+            for n in A.walk_no_nested(ast.Module(w.body, [])):
+                inner_loop = any(isinstance(a, (ast.For, ast.While)) and a is not w and any(x is w for x in A.ancestors(a)) for a in A.ancestors(n))
+                if isinstance(n, ast.Break) and not inner_loop:
+                    probs.append(f"line {A.lineno(n)}: 'break' abandons the remaining items of {work}")
+                if isinstance(n, ast.Return) and not any(n is x or any(a is x for a in A.ancestors(n)) for x in empty_branch):
+                    v = n.value
+                    negative = v is None or (isinstance(v, ast.Constant) and v.value in (False, None))
+                    if negative:
+                        probs.append(f"line {A.lineno(n)}: negative answer '{A.unparse(n)}' while {work} still holds items")
+            if probs:
+                out.append(bad("TOTAL-6", fn.qualname, key, where, "; ".join(probs) + ": blocks reachable through the abandoned items are never visited"))
+            else:
+                out.append(ok("TOTAL-6", fn.qualname, key, where, f"{work} is drained completely unless a positive answer is found"))
+    return out
